@@ -234,7 +234,7 @@ func TestVerifBoundedJSON(t *testing.T) {
 		}
 		sort.Strings(pks)
 		for pi, p := range pks {
-			for phi, ph := range []any{"<Any value>", "x", 7, nil, "a much longer placeholder than the value it replaces ......"} {
+			for phi, ph := range []any{"<Any value>", "x", 7, nil, "a much longer placeholder than the value it replaces ......", "é", `q"q`} {
 				pid := fmt.Sprintf("%s.p%d.h%d", id, pi, phi)
 				in := []byte(d)
 				out, errs := match.Any(p).Placeholder(ph).JSON(in)
@@ -301,5 +301,5 @@ func TestVerifBoundedJSON(t *testing.T) {
 		json.Unmarshal([]byte(snap), &vout)
 		report("dupkeys", "d0", reflect.DeepEqual(vin, vout), fmt.Sprintf("doc %s rendered %q", d, snap))
 	}
-	fmt.Printf("SUMMARY cases=%d distinct=%d bound=documents with at most %d nodes over 11 scalars and 6 keys, 3 format configs, 5 placeholders\n", cases, distinct, n)
+	fmt.Printf("SUMMARY cases=%d distinct=%d bound=documents with at most %d nodes over 11 scalars and 6 keys, 3 format configs, 7 placeholders (two of them need JSON escaping: F7)\n", cases, distinct, n)
 }
